@@ -39,4 +39,4 @@ def run(ck):
               "store/rise/clear while the old value sits in this node's L1; the dump hook on each server's backing cache checks that every key lives on exactly one server, always the same. Concurrent part: 2..6 application threads on 1..3 nodes (L1 absent / unlimited / 1..3 entries) against 1..2 servers with 1..3 threads each, "
               "under ThreadSanitizer and ASan, histories with unique values checked for stale/foreign/torn reads and, for short ones, linearizability (WGL search). non-trivial = distinct world shapes",
               "ops_total", "worlds", min_evals=10000,
-              required_nonzero=("hits_through_l1_client", "misses", "rise_killed", "clears", "placement_checks", "histories_net_short", "histories_net_long", "histories_linearized", "overlapping_pairs"))
+              required_nonzero=("hits_through_l1_client", "misses", "rise_killed", "clears", "placement_checks", "stores_of_empty_value", "histories_net_short", "histories_net_long", "histories_linearized", "overlapping_pairs"))
